@@ -81,3 +81,30 @@ Definition snum (l : bytes) : Prop :=
 (** IPv4-address-literal = Snum 3("." Snum) *)
 Definition dotted_quad (s : bytes) : Prop :=
   exists a b c d, s = a ++ DOT :: b ++ DOT :: c ++ DOT :: d /\ snum a /\ snum b /\ snum c /\ snum d.
+
+(* ------------------------------------------------------------------ IPv6 address literal *)
+
+(** The IPv6 text inet_pton accepts, as a right-linear grammar with a byte counter.  [ip6_rest tp comp t]:
+    [t] is what may follow, from the start of a group, when [tp] of the 16 address bytes are already
+    determined and [comp] tells whether the "::" has been used.  A group is 1..4 hex digits (2 bytes); the
+    address may end in a dotted quad (4 bytes); "::" stands for at least one zero byte pair, so with it the
+    written groups must stay below 16 bytes, without it they must make exactly 16. *)
+Definition hexdig (c : N) : bool :=
+  is_digit c || (N.leb 97 c && N.leb c 102) || (N.leb 65 c && N.leb c 70).
+Definition hex4 (g : bytes) : Prop := 1 <= length g <= 4 /\ Forall (fun c => hexdig c = true) g.
+
+(** the bytes determined at the end: fewer than 16 when "::" fills the gap, exactly 16 otherwise *)
+Definition ip6_fits (comp : bool) (n : nat) : Prop := if comp then n < 16 else n = 16.
+
+Inductive ip6_rest : nat -> bool -> bytes -> Prop :=
+| i6_last g tp comp : hex4 g -> ip6_fits comp (tp + 2) -> ip6_rest tp comp g
+| i6_group g rest tp comp : hex4 g -> tp + 2 <= 16 -> rest <> [] -> ip6_rest (tp + 2) comp rest ->
+    ip6_rest tp comp (g ++ cCOLON :: rest)
+| i6_comp rest tp : ip6_rest tp true rest -> ip6_rest tp false (cCOLON :: rest)
+| i6_end tp : tp < 16 -> ip6_rest tp true []
+| i6_v4 q tp comp : dotted_quad q -> ip6_fits comp (tp + 4) -> ip6_rest tp comp q.
+
+(** the whole text: a leading colon must be the first half of "::" *)
+Definition ip6_text (s : bytes) : Prop :=
+  (exists s1, s = cCOLON :: cCOLON :: s1 /\ ip6_rest 0 false (cCOLON :: s1))
+  \/ (s <> [] /\ hd 0%N s <> cCOLON /\ ip6_rest 0 false s).
